@@ -12,7 +12,9 @@ ASSUMPTIONS = ['A-SC; checked memory-order discipline: every load of seq is acqu
                'verified at the buffer sizes of MpmcRingBuffer<int,2|3|4,true>, <int,3|6,false> (kBufferSize in {2,4} power-of-two and {3,6} exact; thorough adds 8 and 5); head_/tail_/seq fully symbolic',
                'Slot::data bytes are rendered as a T_cell (dataPtr(slot) = &slot->data); alignment of Slot::data is alignas(T) in the source and not re-verified',
                'exactly-once and FIFO follow from: position p is claimed by exactly one successful CAS on tail_ and one on head_ (RMW axiom), the claimant alone touches slot wrap(p) between its CAS and its release store (ownership obligations proved here), and pops claim positions in increasing order; the abstract queue itself is not carried as ghost state',
-               'try_push(T&&), try_push(const T&), try_emplace forward to emplaceImpl (one-line bodies, checked textually)']
+               'try_push(T&&), try_push(const T&), try_emplace forward to emplaceImpl (one-line bodies, checked textually)',
+               'try_push_batch is verified at kBufferSize = 2 (all slots tracked; thorough also tries 4): at larger sizes the unwound batch loops under interference did not finish in 15 min',
+               'exact (non-power-of-two) buffer sizes: wrapIndex == i % kBufferSize is proved (CBMC) and the modular-arithmetic facts the protocol proof uses are proved of % (intwp lemma), but the rely/guarantee proof itself is run at power-of-two sizes only: a 64-bit remainder inside it did not finish (probed > 20 min with a divider, with an uninterpreted function + axioms, and with a q*N+r decomposition)']
 EXPLANATION = 'Vyukov per-slot sequence invariant preserved by every operation under arbitrary interference; slot data touched only by the claimant; quiescent success conditions exact'
 
 F = 'dispenso/mpmc_ring_buffer.h'
@@ -21,11 +23,13 @@ SUBS = [('R7', r'head_\.load\(std::memory_order_(\w+)\)', r'A_LOAD_pos(&self->he
         ('R7', r'tail_\.load\(std::memory_order_(\w+)\)', r'A_LOAD_pos(&self->tail_, MO_\1)'),
         ('R7', r'head_\.compare_exchange_strong\((\w+),\s*([^;]*?),\s*std::memory_order_(\w+)\)', r'A_CAS_head(self, &\1, \2, MO_\3)'),
         ('R7', r'tail_\.compare_exchange_strong\((\w+),\s*([^;]*?),\s*std::memory_order_(\w+)\)', r'A_CAS_tail(self, &\1, \2, MO_\3)'),
-        ('R8', r'Slot&\s+slot\s*=\s*slots_\[(.*?)\];', r'Slot* slot = &self->slots_[\1];'),
-        ('R7', r'slot\.seq\.load\(std::memory_order_(\w+)\)', r'A_LOAD_seq(slot, MO_\1)'),
-        ('R7', r'slot\.seq\.store\(([^;]*?),\s*std::memory_order_(\w+)\);', r'A_STORE_seq(slot, \1, MO_\2);'),
-        ('R9', r'T\*\s+elem\s*=\s*dataPtr\(slot\);', 'T_cell* elem = dataPtr(slot);'),
-        ('R12', r'elem->~T\(\);', 'T_destroy_at(elem);')]
+        # R8: a reference bound to an element of slots_ is rendered as the index it is bound to
+        ('R8', r'Slot&\s+slot\s*=\s*slots_\[(.*?)\];', r'size_t slot_i = \1; VERIF_ACTIVE(slot_i);'),
+        ('R7', r'slot\.seq\.load\(std::memory_order_(\w+)\)', r'A_LOAD_seq(self, slot_i, MO_\1)'),
+        ('R7', r'slot\.seq\.store\(([^;]*?),\s*std::memory_order_(\w+)\);', r'A_STORE_seq(self, slot_i, \1, MO_\2);'),
+        # T* elem = dataPtr(slot): elem aliases the slot's data for the rest of the block (assigned once)
+        ('R9', r'T\*\s+elem\s*=\s*dataPtr\(slot\);', '/* elem = dataPtr(slot) */'),
+        ('R12', r'elem->~T\(\);', 'S_destroy(self, slot_i);')]
 
 
 def opt(subs):
@@ -46,27 +50,29 @@ def build(ctx):
     r = ctx.repo
     TM = {'intptr_t': 'intptr_t'}
     def em(name, sig, extra=(), must=('R7',), **kw):
-        ctx.emit(name + '.body.inc', r.function(F, sig, within=CLS, **kw), subs=opt(SUBS) + list(extra), must_fire=list(must), typemap=TM)
+        pc = r.function(F, sig, within=CLS, **kw)
+        X.inline_helpers(r, F, pc, within=CLS, exclude={'wrapIndex', 'dataPtr', 'T', 'emplaceImpl'})
+        ctx.emit(name + '.body.inc', pc, subs=opt(SUBS) + list(extra), must_fire=list(must), typemap=TM)
     em('Mpmc_wrapIndex', r'static\s+size_t\s+wrapIndex\s*\(\s*size_t\s+i\s*\)', must=())
     em('Mpmc_emplaceImpl', r'bool\s+emplaceImpl\s*\(\s*Args&&\.\.\.\s*args\s*\)', must=('R7', 'R8', 'R12'),
-       extra=[('R12', r'new\s*\(dataPtr\(slot\)\)\s*T\(std::forward<Args>\(args\)\.\.\.\);', 'T_construct_at(dataPtr(slot), args);', 1)])
+       extra=[('R12', r'new\s*\(dataPtr\(slot\)\)\s*T\(std::forward<Args>\(args\)\.\.\.\);', 'S_construct(self, slot_i, args);', 1)])
     pop_extra = [('R5', ('call', r'static_assert\s*(?=\()'), '', 'opt')]
     em('Mpmc_try_pop_ref', r'bool\s+try_pop\s*\(\s*T&\s*item\s*\)', must=('R7', 'R8', 'R12'),
-       extra=pop_extra + [('R12', r'item\s*=\s*std::move\(\*elem\);', 'item->value = T_move_from(elem);', 1)])
+       extra=pop_extra + [('R12', r'item\s*=\s*std::move\(\*elem\);', 'item->value = S_move_from(self, slot_i);', 1)])
     em('Mpmc_try_pop_opt', r'OpResult<T>\s+try_pop\s*\(\s*\)', must=('R7', 'R8', 'R12'),
-       extra=[('R12', r'OpResult<T>\s+result\(std::move\(\*elem\)\);', 'OpResult result = OpResult_from(T_move_from(elem));', 1),
+       extra=[('R12', r'OpResult<T>\s+result\(std::move\(\*elem\)\);', 'OpResult result = OpResult_from(S_move_from(self, slot_i));', 1),
               ('R10', r'return\s*\{\s*\};', 'return OpResult_empty();', 2)])
     em('Mpmc_try_pop_into', r'bool\s+try_pop_into\s*\(\s*T\*\s*storage\s*\)', must=('R7', 'R8', 'R12'),
-       extra=[('R12', r'new\s*\(storage\)\s*T\(std::move\(\*elem\)\);', 'T_construct_at(storage, T_move_from(elem));', 1)])
+       extra=[('R12', r'new\s*\(storage\)\s*T\(std::move\(\*elem\)\);', 'T_construct_at(storage, S_move_from(self, slot_i));', 1)])
     em('Mpmc_try_push_batch', r'size_type\s+try_push_batch\s*\(\s*T\*\s*items\s*,\s*size_type\s+count\s*\)', must=('R7', 'R8', 'R12'),
-       extra=[('R12', r'new\s*\(dataPtr\(slot\)\)\s*T\(std::move\(items\[i\]\)\);', 'T_construct_at(dataPtr(slot), T_move_from(&items[i]));', 1)])
+       extra=[('R12', r'new\s*\(dataPtr\(slot\)\)\s*T\(std::move\(items\[i\]\)\);', 'S_construct(self, slot_i, T_move_from(&items[i]));', 1)])
     em('Mpmc_empty', r'bool\s+empty\s*\(\s*\)\s*const')
     em('Mpmc_full', r'bool\s+full\s*\(\s*\)\s*const')
     em('Mpmc_size', r'size_type\s+size\s*\(\s*\)\s*const')
     em('Mpmc_ctor', r'(?<![~\w])MpmcRingBuffer\s*\(\s*\)\s*(?=\{)', must=('R7',),
-       extra=[('R7', r'slots_\[i\]\.seq\.store\(i,\s*std::memory_order_relaxed\);', 'self->slots_[i].seq = i; A_NOTE(MO_relaxed);', 1)])
+       extra=[('R7', r'slots_\[i\]\.seq\.store\(i,\s*std::memory_order_relaxed\);', 'SL(self, i)->seq = i; A_NOTE(MO_relaxed);', 1)])
     em('Mpmc_dtor', r'~MpmcRingBuffer\s*\(\s*\)', must=('R7', 'R12'),
-       extra=[('R12', r'dataPtr\(slots_\[pos\]\)->~T\(\);', 'T_destroy_at(&self->slots_[pos].data);', 1)])
+       extra=[('R12', r'dataPtr\(slots_\[pos\]\)->~T\(\);', 'S_destroy(self, pos);', 1)])
     # the three public push entry points must forward to emplaceImpl (one-line bodies)
     txt = r.text(F)
     for pat in (r'bool\s+try_push\s*\(\s*T&&\s*item\s*\)\s*\{\s*return\s+emplaceImpl\(std::move\(item\)\);\s*\}',
@@ -76,16 +82,28 @@ def build(ctx):
             raise X.ExtractionError('MpmcRingBuffer: a push entry point no longer forwards to emplaceImpl: ' + pat[:40])
     S = 'specs/c34_mpmc.c'
     units = []
-    insts = [(2, True), (3, False), (3, True)] if ctx.tier == 'quick' else [(2, True), (3, False), (3, True), (6, False), (5, False), (8, True)]
+    # (Capacity, RoundUp): power-of-two buffer sizes carry the whole protocol proof; for exact (non-power-of-two) sizes only
+    # wrapIndex and the wrap lemma are verified (a 64-bit remainder inside the rely/guarantee proof is out of reach here)
+    insts = [(2, True), (3, True), (16, True), (3, False), (6, False)] if ctx.tier == 'quick' else [(2, True), (3, True), (7, True), (16, True), (64, True), (3, False), (5, False), (6, False), (12, False)]
     for cap, ru in insts:
         kb = probe(ctx, cap, ru)
-        d = {'KBUF': str(kb), 'KPOW2': '1' if (kb & (kb - 1)) == 0 else '0'}
+        pow2 = (kb & (kb - 1)) == 0
+        d = {'KBUF': str(kb), 'KPOW2': '1' if pow2 else '0'}
         inst = 'Capacity=%d,RoundUp=%s,kBufferSize=%d' % (cap, ru, kb)
-        common = dict(defines=d, inst=inst, timeout=900, unwind=kb + 3, replace=['wrapIndex'],
-                      assumptions=['slot loops of the interference step, guarantee check, harness, batch and destructor are bounded by the constant kBufferSize: unwound completely'])
-        units.append(Unit('MPMC.wrapIndex', 'cbmc', S, 'wrapIndex', expect=[r'postcondition'], defines=d, inst=inst))
-        for fn in ('Mpmc_emplaceImpl', 'Mpmc_try_pop_ref', 'Mpmc_try_pop_opt', 'Mpmc_try_pop_into', 'Mpmc_try_push_batch'):
-            units.append(Unit(fn.replace('Mpmc_', 'MPMC.'), 'cbmc', S, fn, expect=[r'postcondition\.3', r'A_CAS_(head|tail)\.assertion', r'dataPtr\.assertion', r'A_STORE_seq\.assertion'], **common))
+        dx = dict(d); dx['WRAP_EXACT'] = None
+        units.append(Unit('MPMC.wrapIndex', 'cbmc', S, 'wrapIndex', expect=[r'postcondition'], defines=dx, inst=inst))
+        if not pow2:
+            units.append(Unit('MPMC.wrap_lemma', 'intwp', S, 'c34_wrap_axioms', expect=[r'assertion\.4'], defines=d, inst=inst, timeout=120))
+            continue
+        common = dict(defines=d, inst=inst, timeout=900, unwind=kb + 3, replace=['wrapIndex'], solver=(), extra_checks=[], object_bits=12,
+                      assumptions=['loops of the batch push, constructor and destructor are bounded by the constant kBufferSize: unwound completely'])
+        for fn in ('Mpmc_emplaceImpl', 'Mpmc_try_pop_ref', 'Mpmc_try_pop_opt', 'Mpmc_try_pop_into'):
+            units.append(Unit(fn.replace('Mpmc_', 'MPMC.'), 'cbmc', S, fn, expect=[r'postcondition\.4', r'A_CAS_(head|tail)\.assertion', r'S_(construct|move_from)\.assertion', r'A_STORE_seq\.assertion', r'check_all\.assertion'], **common))
+        db = dict(d); db['NO_PROPHECY'] = None
+        cb = dict(common); cb['defines'] = db
+        if kb == 2 or (kb == 4 and ctx.tier == 'thorough'):
+          cb['timeout'] = 3600
+          units.append(Unit('MPMC.try_push_batch', 'cbmc', S, 'Mpmc_try_push_batch', expect=[r'postcondition\.6', r'A_CAS_tail\.assertion', r'S_construct\.assertion', r'A_STORE_seq\.assertion'], **cb))
         for fn in ('Mpmc_empty', 'Mpmc_full', 'Mpmc_size', 'Mpmc_ctor', 'Mpmc_dtor'):
             units.append(Unit(fn.replace('Mpmc_', 'MPMC.'), 'cbmc', S, fn, expect=[r'postcondition'], **common))
     return units
